@@ -140,6 +140,13 @@ func (s *Sim) execBlock(op Op) {
 				if err == nil {
 					s.Stats.Probe("simulated_tx_ran_ok")
 				}
+				if m, ok := t.Meta.(*txMeta); ok && m.Kind == "orbiter" && m.Op.Signer != "" && !m.Op.Fail {
+					// an authority-only message signed by somebody else fails however it is executed
+					s.Stats.Count("rule:C10.simulated-tx")
+					if err == nil {
+						s.violate("C10", "only-authority", "non-authority message succeeds when simulated msg="+m.Op.Msg, fmt.Sprintf("op %d: %s signed by %s succeeds in a gas-estimation run on the node", m.OpID, m.Op.Msg, m.Op.Signer))
+					}
+				}
 			}
 		}
 		if s.ModeB != nil {
@@ -366,6 +373,21 @@ func (s *Sim) handleTx(t *PendingTx, m *txMeta, obs *TxObs, r *abci.ExecTxResult
 		}
 		fp := panicFingerprint(obs.Log)
 		s.violate("C14", "U1-no-panic", fp, fmt.Sprintf("tx of op %d (%s) aborted by a recovered panic: %.200s", m.OpID, kind, oneLine(obs.Log)))
+		// what a pause promises is a refusal with an error acknowledgement: an aborted transaction is not one
+		if len(m.Pkts) == 1 && m.Pkts[0].State == PktInFlight {
+			if in := s.classify(m.Pkts[0]); in.ToOrbiter {
+				pl := in.Payload
+				if pl == nil {
+					pl = &MPayload{}
+				}
+				if (pl.HasFee && s.Model.PausedAct["ACTION_FEE"]) || (strings.Contains(in.D.Memo, `"id":"ACTION_SWAP"`) && s.Model.PausedAct["ACTION_SWAP"]) {
+					s.violate("C09", "enforcement", "paused-action-not-refused-with-an-error-acknowledgement (transaction aborted)", fmt.Sprintf("packet op=%d carries a paused action; its delivery aborted the relayer's transaction instead of writing an error acknowledgement: %.160s", m.Pkts[0].Origin, oneLine(obs.Log)))
+				}
+				if in.Canon && s.Model.IsPaused(pl.Proto, pl.Counterparty()) {
+					s.violate("C08", "enforcement", "paused-destination-not-refused-with-an-error-acknowledgement (transaction aborted)", fmt.Sprintf("packet op=%d names a paused destination; its delivery aborted the relayer's transaction instead of writing an error acknowledgement: %.160s", m.Pkts[0].Origin, oneLine(obs.Log)))
+				}
+			}
+		}
 	}
 	if obs.Code != 0 {
 		s.logf("tx op=%d %s FAILED code=%d/%s %.160s", m.OpID, kind, obs.Code, obs.Codespace, oneLine(obs.Log))
